@@ -57,6 +57,19 @@ let () =
       | ["R"; id; codec; sch; samplehex; hdrs; obs] ->
         let r = protect_ranges (isvideo_of codec) (mk_hdr hdrs) (scheme_of sch) (bytes_of_hex samplehex) in
         check id "ranges" (res_string string_of_ranges r) obs
+      | ["Q"; id; spss; ppss; sch; samplehex; obs] ->
+        (* AVC ranges with the slice-header size computed by the C15 Gallina parsers from the avcC parameter sets *)
+        let open C15Model in
+        let sl = if spss = "-" then [] else split_on ',' spss and pl = if ppss = "-" then [] else split_on ',' ppss in
+        let sps_l = L.filter_map (fun h -> match parse_sps_er false (bytes_of_hex h) with Ok x -> Some x | _ -> None) sl in
+        let spsmap i = L.fold_left (fun acc x -> if int_of_n x.sps_id = int_of_n i then Some x else acc) None sps_l in
+        let chroma i = match spsmap i with Some x -> Some x.sps_chroma_format_idc | None -> None in
+        let pps_l = L.filter_map (fun h -> match parse_pps_er chroma (bytes_of_hex h) with Ok x -> Some x | _ -> None) pl in
+        let ppsmap i = L.fold_left (fun acc x -> if int_of_n x.pps_id = int_of_n i then Some x else acc) None pps_l in
+        let hdr nalu = match parse_slice_er spsmap ppsmap nalu with
+          | Ok h -> Ok h.sh_size | Err -> Err | Panic -> Panic | OutOfFuel -> OutOfFuel in
+        let r = protect_ranges avc_is_video hdr (scheme_of sch) (bytes_of_hex samplehex) in
+        check id "ranges(C15 header size)" (res_string string_of_ranges r) obs
       | ["A"; id; rng; c; p; obs] ->
         let r = append_protect_range (ranges_of_string rng) (n_of_hex c) (n_of_hex p) in
         check id "append" (res_string string_of_ranges r) obs
